@@ -2,6 +2,7 @@ import PyomaVerif.Lemmas.Unity
 import PyomaVerif.Lemmas.Geo
 import PyomaVerif.Props.C06
 import PyomaVerif.Props.C08Pipe
+import PyomaVerif.Model.C08
 /-!
 # C08 — "every reported mode shape is normalised so that its largest-magnitude component equals 1"
 
@@ -352,6 +353,51 @@ theorem C08_mix_shapes (l : Nat) (Q : Nat → Nat → Rat) (C C' : Mat Rat) (Vec
   rw [hnorm, mixVec_smul, normalise_smul c hc0]
 
 end mix
+
+/-! ## 5. Time unit through the model of the whole `ssi.ac2mp` (`Model/C08.lean`, driver op `c08_ac2mp`) -/
+section time_ac2mp
+
+/-- `lam_c = log(lam_d)·(1/dt)` as coded: declaring `dt/k` multiplies it by `k` -/
+theorem C08_time_unit_lamC (z : Cpx Rat) (dt k : Rat) :
+    lamCOf z (1 / (dt / k)) = ⟨k * (lamCOf z (1 / dt)).re, k * (lamCOf z (1 / dt)).im⟩ := by
+  simp only [lamCOf, one_div_div]
+  congr 1 <;> ring
+
+/-- **C08_time_unit_ac2mp — `ssi.ac2mp`, the model with the `dt` step inside.**  Same recorded `log(lam_d)` and
+    eigenvectors (the state and output matrices do not depend on `dt`), `dt' = dt/k`, recorded moduli
+    multiplied by `k ≠ 0` (`|k·λ| = k·|λ|` for `k > 0`): every `fn` and every continuous pole is multiplied by
+    `k`, every `xi` and every unit-normalised shape is unchanged. -/
+theorem C08_time_unit_ac2mp (C V : Mat (Cpx Rat)) (logLam : List (Cpx Rat)) (dt k : Rat) (hk : k ≠ 0)
+    (absLam : List Rat) (twoPi : Rat) :
+    ac2mpSsi C V logLam (1 / (dt / k)) (absLam.map (k * ·)) twoPi
+      = { fn := (ac2mpSsi C V logLam (1 / dt) absLam twoPi).fn.map (k * ·),
+          xi := (ac2mpSsi C V logLam (1 / dt) absLam twoPi).xi,
+          phi := (ac2mpSsi C V logLam (1 / dt) absLam twoPi).phi,
+          lam := (ac2mpSsi C V logLam (1 / dt) absLam twoPi).lam.map
+            (fun z => (⟨k * z.re, k * z.im⟩ : Cpx Rat)) } := by
+  simp only [ac2mpSsi, List.map_map]
+  congr 1
+  · apply List.map_congr_left
+    intro a _
+    exact (C08_time_unit_ssi_model ⟨0, 0⟩ a twoPi k hk).2
+  · rw [List.zip_map, List.map_map]
+    conv_rhs => rw [← List.map_id absLam, List.zip_map, List.map_map]
+    apply List.map_congr_left
+    rintro ⟨z, a⟩ _
+    simp only [Function.comp, Prod.map, id]
+    rw [C08_time_unit_lamC]
+    exact (C08_time_unit_ssi_model (lamCOf z (1 / dt)) a twoPi k hk).1
+  · apply List.map_congr_left
+    intro z _
+    exact C08_time_unit_lamC z dt k
+
+example := C08_time_unit_ac2mp ⟨2, 1, fun i _ => ⟨(i : Rat) + 1, 0⟩⟩ ⟨1, 1, fun _ _ => ⟨0, 1⟩⟩ [⟨-1/100, 7/10⟩]
+  (1/50) 10 (by norm_num) [7/10] 6
+-- the values on this instance: `fn = 35·(7/10)/6`… for `dt = 1/50`; ten times that for `dt = 1/500`
+example : (ac2mpSsi ⟨2, 1, fun i _ => ⟨(i : Rat) + 1, 0⟩⟩ ⟨1, 1, fun _ _ => ⟨0, 1⟩⟩ [⟨-1/100, 7/10⟩]
+    (1 / (1/50)) [35] 6).lam = [⟨-1/2, 35⟩] := by decide +kernel
+
+end time_ac2mp
 
 /-! ## Non-vacuity -/
 section examples
